@@ -49,28 +49,28 @@ Definition info_part (w h bpp ncolors : Z) : part :=
 Record st := { s_data : bytes; s_x : Z; s_y : Z; s_idx : Z }.
 
 (* ===================== 8 bit ===================== *)
-(* for _ in range(n): if x >= w: break; data[y*width+x+pw] = v; x += 1 *)
-Fixpoint put_run8 (n : nat) (data : bytes) (x y w width pw : Z) (v : byte) : result (bytes * Z) :=
+(* for _ in range(n): if x >= w: break; if x < iw: data[y*width+x+pw] = v; x += 1
+   (iw: the pixels of the image in a row; w: the stored row, one pad byte more when iw is odd) *)
+Fixpoint put_run8 (n : nat) (data : bytes) (x y w iw width pw : Z) (v : byte) : result (bytes * Z) :=
   match n with
   | O => Ok (data, x)
   | S m =>
     if x >=? w then Ok (data, x) else
-    let! data' := set_idx data (y * width + x + pw) v in
-    put_run8 m data' (x + 1) y w width pw v
+    let! data' := (if x <? iw then set_idx data (y * width + x + pw) v else Ok data) in
+    put_run8 m data' (x + 1) y w iw width pw v
   end.
 (* literal bytes: for _ in range(n): if x >= w: break; data[p] = fdata[idx]; x += 1; idx += 1; if idx > len: break *)
-Fixpoint put_lit8 (n : nat) (f : bytes) (data : bytes) (x y w width pw idx : Z) : result (bytes * Z * Z) :=
+Fixpoint put_lit8 (n : nat) (f : bytes) (data : bytes) (x y w iw width pw idx : Z) : result (bytes * Z * Z) :=
   match n with
   | O => Ok (data, x, idx)
   | S m =>
     if x >=? w then Ok (data, x, idx) else
-    let! v := get_idx f idx in
-    let! data' := set_idx data (y * width + x + pw) v in
+    let! data' := (if x <? iw then (let! v := get_idx f idx in set_idx data (y * width + x + pw) v) else Ok data) in
     if idx + 1 >? zlen f then Ok (data', x + 1, idx + 1)
-    else put_lit8 m f data' (x + 1) y w width pw (idx + 1)
+    else put_lit8 m f data' (x + 1) y w iw width pw (idx + 1)
   end.
 
-Fixpoint loop8 (fuel : nat) (f : bytes) (s : st) (w width pw : Z) : result st :=
+Fixpoint loop8 (fuel : nat) (f : bytes) (s : st) (w iw width pw : Z) : result st :=
   if (s_idx s <? zlen f) && (s_y s >=? 0) then
     match fuel with
     | O => OutOfFuel
@@ -82,29 +82,29 @@ Fixpoint loop8 (fuel : nat) (f : bytes) (s : st) (w width pw : Z) : result st :=
         if s_idx s + 1 >=? zlen f then Ok s else
         let! rv := get_idx f (s_idx s + 1) in
         let idx := s_idx s + 2 in
-        let! (data, x) := put_run8 (Z.to_nat run_length) (s_data s) (s_x s) (s_y s) w width pw rv in
+        let! (data, x) := put_run8 (Z.to_nat run_length) (s_data s) (s_x s) (s_y s) w iw width pw rv in
         if x >=? w then
           (if s_y s - 1 <? 0 then Ok (Build_st data 0 (s_y s - 1) idx)
-           else loop8 k f (Build_st data 0 (s_y s - 1) idx) w width pw)
-        else loop8 k f (Build_st data x (s_y s) idx) w width pw
+           else loop8 k f (Build_st data 0 (s_y s - 1) idx) w iw width pw)
+        else loop8 k f (Build_st data x (s_y s) idx) w iw width pw
       else
         let run_length := val + 1 in
         let idx := s_idx s + 1 in
         if idx + run_length >? zlen f then Ok (Build_st (s_data s) (s_x s) (s_y s) idx) else
-        let! (data, x, idx') := put_lit8 (Z.to_nat run_length) f (s_data s) (s_x s) (s_y s) w width pw idx in
+        let! (data, x, idx') := put_lit8 (Z.to_nat run_length) f (s_data s) (s_x s) (s_y s) w iw width pw idx in
         if x >=? w then
           (if s_y s - 1 <? 0 then Ok (Build_st data 0 (s_y s - 1) idx')
-           else loop8 k f (Build_st data 0 (s_y s - 1) idx') w width pw)
-        else loop8 k f (Build_st data x (s_y s) idx') w width pw
+           else loop8 k f (Build_st data 0 (s_y s - 1) idx') w iw width pw)
+        else loop8 k f (Build_st data x (s_y s) idx') w iw width pw
     end
   else Ok s.
 
 Definition decode_compressed8 (f : bytes) (w0 h pw ph width : Z) : result bytes :=
-  let w := w0 - pw in
-  let w := w + w mod 2 in
+  let iw := w0 - pw in
+  let w := iw + iw mod 2 in
   let bw := if w + pw >? width then width + 4 else width in
   let! data := bytearray (bw * h) in
-  let! s := loop8 (S (length f)) f (Build_st data 0 (h - 1 - ph) 0) w width pw in
+  let! s := loop8 (S (length f)) f (Build_st data 0 (h - 1 - ph) 0) w iw width pw in
   Ok (s_data s).
 
 (* raw rows *)
@@ -152,31 +152,31 @@ Definition decode8 (f : bytes) (bw bh pw ph : Z) (pname pdata : bytes) : result 
 (* ===================== 1 bit ===================== *)
 Definition bit_of (v : Z) (j : Z) : byte := byte_of_Z ((v / 2 ^ (7 - j)) mod 2).
 (* for j in range(8): bitval; if x >= w: break; data[p] = bitval; x += 1 *)
-Fixpoint put_bits (j : nat) (data : bytes) (x y w width pw v : Z) : result (bytes * Z) :=
+Fixpoint put_bits (j : nat) (data : bytes) (x y w iw width pw v : Z) : result (bytes * Z) :=
   match j with
   | O => Ok (data, x)
   | S m =>
     if x >=? w then Ok (data, x) else
-    let! data' := set_idx data (y * width + x + pw) (bit_of v (8 - Z.of_nat j)) in
-    put_bits m data' (x + 1) y w width pw v
+    let! data' := (if x <? iw then set_idx data (y * width + x + pw) (bit_of v (8 - Z.of_nat j)) else Ok data) in
+    put_bits m data' (x + 1) y w iw width pw v
   end.
-Fixpoint put_run1 (n : nat) (data : bytes) (x y w width pw v : Z) : result (bytes * Z) :=
+Fixpoint put_run1 (n : nat) (data : bytes) (x y w iw width pw v : Z) : result (bytes * Z) :=
   match n with
   | O => Ok (data, x)
-  | S m => let! (data', x') := put_bits 8 data x y w width pw v in put_run1 m data' x' y w width pw v
+  | S m => let! (data', x') := put_bits 8 data x y w iw width pw v in put_run1 m data' x' y w iw width pw v
   end.
-Fixpoint put_lit1 (n : nat) (f : bytes) (data : bytes) (x y w width pw idx : Z) : result (bytes * Z * Z) :=
+Fixpoint put_lit1 (n : nat) (f : bytes) (data : bytes) (x y w iw width pw idx : Z) : result (bytes * Z * Z) :=
   match n with
   | O => Ok (data, x, idx)
   | S m =>
     (* fdata[idx] is evaluated inside the bit loop: at least once *)
     let! vb := get_idx f idx in
-    let! (data', x') := put_bits 8 data x y w width pw (u8 vb) in
+    let! (data', x') := put_bits 8 data x y w iw width pw (u8 vb) in
     if idx + 1 >? zlen f then Ok (data', x', idx + 1)
-    else put_lit1 m f data' x' y w width pw (idx + 1)
+    else put_lit1 m f data' x' y w iw width pw (idx + 1)
   end.
 
-Fixpoint loop1 (fuel : nat) (f : bytes) (s : st) (w width pw : Z) : result st :=
+Fixpoint loop1 (fuel : nat) (f : bytes) (s : st) (w iw width pw : Z) : result st :=
   if (s_idx s <? zlen f) && (s_y s >=? 0) then
     match fuel with
     | O => OutOfFuel
@@ -188,29 +188,29 @@ Fixpoint loop1 (fuel : nat) (f : bytes) (s : st) (w width pw : Z) : result st :=
         if s_idx s + 1 >=? zlen f then Ok s else
         let! rv := get_idx f (s_idx s + 1) in
         let idx := s_idx s + 2 in
-        let! (data, x) := put_run1 (Z.to_nat run_length) (s_data s) (s_x s) (s_y s) w width pw (u8 rv) in
+        let! (data, x) := put_run1 (Z.to_nat run_length) (s_data s) (s_x s) (s_y s) w iw width pw (u8 rv) in
         if x >=? w then
           (if s_y s - 1 <? 0 then Ok (Build_st data 0 (s_y s - 1) idx)
-           else loop1 k f (Build_st data 0 (s_y s - 1) idx) w width pw)
-        else loop1 k f (Build_st data x (s_y s) idx) w width pw
+           else loop1 k f (Build_st data 0 (s_y s - 1) idx) w iw width pw)
+        else loop1 k f (Build_st data x (s_y s) idx) w iw width pw
       else
         let run_length := val + 1 in
         let idx := s_idx s + 1 in
         if idx + run_length >? zlen f then Ok (Build_st (s_data s) (s_x s) (s_y s) idx) else
-        let! (data, x, idx') := put_lit1 (Z.to_nat run_length) f (s_data s) (s_x s) (s_y s) w width pw idx in
+        let! (data, x, idx') := put_lit1 (Z.to_nat run_length) f (s_data s) (s_x s) (s_y s) w iw width pw idx in
         if x >=? w then
           (if s_y s - 1 <? 0 then Ok (Build_st data 0 (s_y s - 1) idx')
-           else loop1 k f (Build_st data 0 (s_y s - 1) idx') w width pw)
-        else loop1 k f (Build_st data x (s_y s) idx') w width pw
+           else loop1 k f (Build_st data 0 (s_y s - 1) idx') w iw width pw)
+        else loop1 k f (Build_st data x (s_y s) idx') w iw width pw
     end
   else Ok s.
 
 Definition decode_compressed1 (f : bytes) (w0 h pw ph width : Z) : result bytes :=
   let! data := bytearray (width * h) in
-  let inc := (16 - ((w0 - pw) mod 16)) mod 16 in
-  let inc := if w0 - pw + inc >? width then 0 else inc in
-  let w := w0 - pw + inc in
-  let! s := loop1 (S (length f)) f (Build_st data 0 (h - 1 - ph) 0) w width pw in
+  let iw := w0 - pw in
+  let inc := (16 - (iw mod 16)) mod 16 in
+  let w := iw + inc in
+  let! s := loop1 (S (length f)) f (Build_st data 0 (h - 1 - ph) 0) w iw width pw in
   Ok (s_data s).
 
 (* raw 1 bit: while x < w: for j in range(8): data[data_idx] = bit; data_idx += 1; x += 1; if x >= w: break; idx += 1 *)
